@@ -59,3 +59,56 @@ package types
 //@   ensures unparsable-default-is-error: ret(strconv.ParseInt)[1] != nil ==> err != nil && out == nil
 //@   ensures binary-exact: ret(strconv.ParseInt)[1] == nil && ret(DataTypeFormat.IsBinaryFormat)[0] ==> err == nil && len(out) == 8 && le64(out) == uint64(ret(strconv.ParseInt)[0])
 //@   at call strconv.ParseInt : assert arg[1] == 10 && arg[2] == 64
+
+// ---- StringDataTypeEncoder (C19) ----
+//@ func (t *StringDataTypeEncoder) Encode(ctx context.Context, data []byte, format type_awareness.DataTypeFormat) (outCtx context.Context, out []byte, err error)
+//@   props C19
+//@   safety
+//@   noinline EncodeOnFail
+//@   ensures revealed-length-encoded: ret(base.IsDecryptedFromContext)[0] ==> err == nil && sameslice(out, ret(base.PutLengthEncodedString)[0]) && sameslice(argof(base.PutLengthEncodedString)[0], data) && !called(StringDataTypeEncoder.EncodeOnFail)
+//@   ensures policy-consulted-when-unrevealed: !ret(base.IsDecryptedFromContext)[0] ==> called(StringDataTypeEncoder.EncodeOnFail)
+//@   ensures policy-error-propagates: called(StringDataTypeEncoder.EncodeOnFail) && ret(StringDataTypeEncoder.EncodeOnFail)[2] != nil ==> err == ret(StringDataTypeEncoder.EncodeOnFail)[2] && out == nil
+//@   ensures policy-value-used: called(StringDataTypeEncoder.EncodeOnFail) && ret(StringDataTypeEncoder.EncodeOnFail)[2] == nil && ret(StringDataTypeEncoder.EncodeOnFail)[1] != nil ==> sameslice(out, ret(StringDataTypeEncoder.EncodeOnFail)[1]) && err == nil
+//@   ensures no-policy-value-rolls-back: called(StringDataTypeEncoder.EncodeOnFail) && ret(StringDataTypeEncoder.EncodeOnFail)[2] == nil && ret(StringDataTypeEncoder.EncodeOnFail)[1] == nil ==> err == base_mysql.ErrConvertToDataType && out == nil
+
+//@ func (t *StringDataTypeEncoder) EncodeOnFail(ctx context.Context, format type_awareness.DataTypeFormat) (outCtx context.Context, out []byte, err error)
+//@   props C19
+//@   safety
+//@   noinline encodeDefault
+//@   ensures ciphertext-or-empty: ret(DataTypeFormat.GetResponseOnFail)[0] == common.ResponseOnFailEmpty || ret(DataTypeFormat.GetResponseOnFail)[0] == common.ResponseOnFailCiphertext ==> out == nil && err == nil
+//@   ensures error-policy: ret(DataTypeFormat.GetResponseOnFail)[0] == common.ResponseOnFailError ==> err != nil && out == nil
+//@   ensures default-policy: ret(DataTypeFormat.GetResponseOnFail)[0] == common.ResponseOnFailDefault && ret(DataTypeFormat.GetDefaultDataValue)[0] != nil ==> called(StringDataTypeEncoder.encodeDefault) && err == ret(StringDataTypeEncoder.encodeDefault)[2] && sameslice(out, ret(StringDataTypeEncoder.encodeDefault)[1])
+//@   ensures unknown-policy-rejected: ret(DataTypeFormat.GetResponseOnFail)[0] != common.ResponseOnFailEmpty && ret(DataTypeFormat.GetResponseOnFail)[0] != common.ResponseOnFailCiphertext && ret(DataTypeFormat.GetResponseOnFail)[0] != common.ResponseOnFailDefault && ret(DataTypeFormat.GetResponseOnFail)[0] != common.ResponseOnFailError ==> err != nil
+
+//@ func (t *StringDataTypeEncoder) encodeDefault(ctx context.Context, data []byte, format type_awareness.DataTypeFormat) (outCtx context.Context, out []byte, err error)
+//@   props C19
+//@   safety
+//@   ensures never-an-error: err == nil
+//@   ensures length-encoded: sameslice(out, ret(base.PutLengthEncodedString)[0]) && sameslice(argof(base.PutLengthEncodedString)[0], data)
+
+// ---- BlobDataTypeEncoder (C19) ----
+//@ func (t *BlobDataTypeEncoder) Encode(ctx context.Context, data []byte, format type_awareness.DataTypeFormat) (outCtx context.Context, out []byte, err error)
+//@   props C19
+//@   safety
+//@   noinline EncodeOnFail
+//@   ensures revealed-length-encoded: ret(base.IsDecryptedFromContext)[0] ==> err == nil && sameslice(out, ret(base.PutLengthEncodedString)[0]) && sameslice(argof(base.PutLengthEncodedString)[0], data) && !called(BlobDataTypeEncoder.EncodeOnFail)
+//@   ensures policy-consulted-when-unrevealed: !ret(base.IsDecryptedFromContext)[0] ==> called(BlobDataTypeEncoder.EncodeOnFail)
+//@   ensures policy-error-propagates: called(BlobDataTypeEncoder.EncodeOnFail) && ret(BlobDataTypeEncoder.EncodeOnFail)[2] != nil ==> err == ret(BlobDataTypeEncoder.EncodeOnFail)[2] && out == nil
+//@   ensures policy-value-used: called(BlobDataTypeEncoder.EncodeOnFail) && ret(BlobDataTypeEncoder.EncodeOnFail)[2] == nil && ret(BlobDataTypeEncoder.EncodeOnFail)[1] != nil ==> sameslice(out, ret(BlobDataTypeEncoder.EncodeOnFail)[1]) && err == nil
+//@   ensures no-policy-value-rolls-back: called(BlobDataTypeEncoder.EncodeOnFail) && ret(BlobDataTypeEncoder.EncodeOnFail)[2] == nil && ret(BlobDataTypeEncoder.EncodeOnFail)[1] == nil ==> err == base_mysql.ErrConvertToDataType && out == nil
+
+//@ func (t *BlobDataTypeEncoder) EncodeOnFail(ctx context.Context, format type_awareness.DataTypeFormat) (outCtx context.Context, out []byte, err error)
+//@   props C19
+//@   safety
+//@   noinline encodeDefault
+//@   ensures ciphertext-or-empty: ret(DataTypeFormat.GetResponseOnFail)[0] == common.ResponseOnFailEmpty || ret(DataTypeFormat.GetResponseOnFail)[0] == common.ResponseOnFailCiphertext ==> out == nil && err == nil
+//@   ensures error-policy: ret(DataTypeFormat.GetResponseOnFail)[0] == common.ResponseOnFailError ==> err != nil && out == nil
+//@   ensures default-policy: ret(DataTypeFormat.GetResponseOnFail)[0] == common.ResponseOnFailDefault && ret(DataTypeFormat.GetDefaultDataValue)[0] != nil ==> called(BlobDataTypeEncoder.encodeDefault) && err == ret(BlobDataTypeEncoder.encodeDefault)[2] && sameslice(out, ret(BlobDataTypeEncoder.encodeDefault)[1])
+//@   ensures unknown-policy-rejected: ret(DataTypeFormat.GetResponseOnFail)[0] != common.ResponseOnFailEmpty && ret(DataTypeFormat.GetResponseOnFail)[0] != common.ResponseOnFailCiphertext && ret(DataTypeFormat.GetResponseOnFail)[0] != common.ResponseOnFailDefault && ret(DataTypeFormat.GetResponseOnFail)[0] != common.ResponseOnFailError ==> err != nil
+
+//@ func (t *BlobDataTypeEncoder) encodeDefault(ctx context.Context, data []byte, format type_awareness.DataTypeFormat) (outCtx context.Context, out []byte, err error)
+//@   props C19
+//@   safety
+//@   ensures never-an-error: err == nil
+//@   ensures undecodable-default-is-no-value: ret(base64.Encoding.DecodeString)[1] != nil ==> out == nil
+//@   ensures length-encoded-decoded: ret(base64.Encoding.DecodeString)[1] == nil ==> sameslice(out, ret(base.PutLengthEncodedString)[0]) && sameslice(argof(base.PutLengthEncodedString)[0], ret(base64.Encoding.DecodeString)[0])
